@@ -531,4 +531,45 @@ theorem update_ctrl_w_inrange (cl : List A → List (List A)) (al : List A → B
   have hk0' : ¬ ((k : Int) = 0) := by omega
   simp [TextInputCl.update, TextInputCl.toG, TextInputCl.ofG, TextInput.keySwitch, hk0', hk0, hir, bwdLoop_steps, hN1, hN2, e3]
 
+theorem update_ctrl_w_zero (cl : List A → List (List A)) (al : List A → Bool) (m : TIC A) (c a sup : Bool) (t : List A)
+    (h0 : m.cursor = 0) :
+    tiRunUpdate genTi cl al m (.key "Ctrl+w" c a sup t) = TextInputCl.update cl al m (.key "Ctrl+w" c a sup t) := by
+  obtain ⟨content, cursor, offset, paste⟩ := m
+  simp only at h0
+  subst h0
+  ti_arm [cmpI]
+
+theorem update_ctrl_w_neg (cl : List A → List (List A)) (al : List A → Bool) (m : TIC A) (c a sup : Bool) (t : List A)
+    (h0 : m.cursor < 0) :
+    tiRunUpdate genTi cl al m (.key "Ctrl+w" c a sup t) = TextInputCl.update cl al m (.key "Ctrl+w" c a sup t) := by
+  obtain ⟨content, cursor, offset, paste⟩ := m
+  simp only at h0
+  have h1 : ¬ cursor = 0 := by omega
+  have h2 : ¬ (0 ≤ cursor - 1) := by omega
+  have h3 : ¬ (0 ≤ cursor) := by omega
+  have hir : TextInput.inRange content cursor = false := by simp [TextInput.inRange]; omega
+  have h4 : ¬ (1 ≤ cursor) := by omega
+  ti_arm [cmpI, h1, h2, h3, h4, loopN, sliceE, boundV, sliceV, hir]
+
+theorem update_ctrl_w_past (cl : List A → List (List A)) (al : List A → Bool) (m : TIC A) (c a sup : Bool) (t : List A)
+    (h0 : m.cursor > m.content.length) :
+    tiRunUpdate genTi cl al m (.key "Ctrl+w" c a sup t) = TextInputCl.update cl al m (.key "Ctrl+w" c a sup t) := by
+  obtain ⟨content, cursor, offset, paste⟩ := m
+  simp only at h0
+  have h1 : ¬ cursor = 0 := by omega
+  have h4 : 1 ≤ cursor := by omega
+  have hidx : content[cursor.toNat - 1]? = none := by apply List.getElem?_eq_none; omega
+  have hir : TextInput.inRange content cursor = false := by simp [TextInput.inRange]; omega
+  ti_arm [cmpI, h1, h4, hidx, loopN, hir]
+
+theorem update_ctrl_w (cl : List A → List (List A)) (al : List A → Bool) (m : TIC A) (c a sup : Bool) (t : List A) :
+    tiRunUpdate genTi cl al m (.key "Ctrl+w" c a sup t) = TextInputCl.update cl al m (.key "Ctrl+w" c a sup t) := by
+  by_cases h0 : m.cursor = 0
+  · exact update_ctrl_w_zero cl al m c a sup t h0
+  · by_cases h1 : m.cursor < 0
+    · exact update_ctrl_w_neg cl al m c a sup t h1
+    · by_cases h2 : m.cursor > m.content.length
+      · exact update_ctrl_w_past cl al m c a sup t h2
+      · exact update_ctrl_w_inrange cl al m c a sup t h0 ⟨by omega, by omega⟩
+
 end VaxisModel.Lemmas.EdLangTIBody
